@@ -271,6 +271,39 @@ def typed_cases():
     return out
 
 
+def documented_blocks(seq):
+    """the blocks the builder methods are documented to append, independent of the model:
+    (number of predicates, number of them that are predicate objects, group, strict, loop, negated, optional)"""
+    exp = []
+    for m, kw in seq:
+        reps = max(kw.get("times", 1), 1)
+        fl = {"next": (1, 1, kw.get("loop", False), 0, 0), "not_next": (1, 1, 0, 1, 0),
+              "followed_by": (1, 0, kw.get("loop", False), 0, kw.get("optional", False)),
+              "not_followed_by": (1, 0, 0, 1, 0),
+              "followed_by_any": (kw.get("npred", 1), 0, kw.get("loop", False), 0, kw.get("optional", False)),
+              "not_followed_by_any": (kw.get("npred", 1), 0, 0, 1, 0)}.get(m)
+        if fl:
+            exp += [[fl[0], fl[0], kw["group"], int(fl[1]), int(fl[2]), int(fl[3]), int(fl[4])]] * reps
+    return exp
+
+
+def feed_shape(shape, scheme, st):
+    """a run of the pattern with these block kinds, started on the first event and offered the rest: the name of
+    the exception class that escaped BoboRun.process (a predicate never raises here), or None"""
+    from bobocep.cep.engine.decider.run import BoboRun
+    from bobocep.cep.event import BoboHistory
+    pdesc = G.pattern(1, G.assign(shape, scheme, "distinct"))
+    pat = PL.make_pattern(pdesc)
+    evs = [PL.make_event(e) for e in G.events(st)]
+    run = BoboRun("r", "ph1", pat, 1, BoboHistory({PL.gname(pdesc["blocks"][0]["group"]): [evs[0]]}))
+    for e in evs[1:]:
+        try:
+            run.process(e)
+        except Exception as ex:   # noqa
+            return type(ex).__name__
+    return None
+
+
 def run(ctx, res):
     rng = ctx.rng
     gen_facts(res)
@@ -293,16 +326,7 @@ def run(ctx, res):
         coq_cases.append(("(%s, %s, %s)" % (cnat(len(name)), cbool(single), clist([bop_coq(m, kw) for m, kw in seq])), out))
         # oracle: documented flags per method, independent of the model
         if out[0] == 0:
-            exp = []
-            for m, kw in seq:
-                reps = max(kw.get("times", 1), 1)
-                fl = {"next": (1, 1, kw.get("loop", False), 0, 0), "not_next": (1, 1, 0, 1, 0),
-                      "followed_by": (1, 0, kw.get("loop", False), 0, kw.get("optional", False)),
-                      "not_followed_by": (1, 0, 0, 1, 0),
-                      "followed_by_any": (kw.get("npred", 1), 0, kw.get("loop", False), 0, kw.get("optional", False)),
-                      "not_followed_by_any": (kw.get("npred", 1), 0, 0, 1, 0)}.get(m)
-                if fl:      # (number of predicates, all of them predicate objects, group, strict, loop, negated, optional)
-                    exp += [[fl[0], fl[0], kw["group"], int(fl[1]), int(fl[2]), int(fl[3]), int(fl[4])]] * reps
+            exp = documented_blocks(seq)
             got = [out[2 + 7 * i: 9 + 7 * i] for i in range(out[1])]
             if got != exp:
                 res.failures.append(dict(signature="builder-flags", what="builder produced blocks %s, documented %s" % (got, exp),
@@ -315,26 +339,20 @@ def run(ctx, res):
         res.mismatches.append(dict(case=dict(name=cases[idx][0], single=cases[idx][1], seq=cases[idx][2]), impl=coq_cases[idx][1], model=mo))
 
     # accepted patterns x streams: nothing but predicate exceptions may escape BoboRun.process
-    from bobocep.cep.engine.decider.run import BoboRun
-    from bobocep.cep.event import BoboHistory
+    # (both predicate schemes: overlapping neighbours, and one value per block so that an event can skip several
+    # skippable blocks at once or match none of them)
     n_runs = 0
-    for shape in G.shapes(4 if ctx.quick else 5):
+    for shape, scheme in [(sh, sc) for sh in G.shapes(5 if ctx.quick else 6) for sc in (1, 0)]:
         if len(shape) < 2:
             continue
-        pdesc = G.pattern(1, G.assign(shape, 1, "distinct"))
-        pat = PL.make_pattern(pdesc)
-        for st in ([1, 2, 3, 4], [4, 4, 4, 4, 4], [1, 3, 2, 4, 5], [2, 2, 3, 3, 4, 4]):
-            evs = [PL.make_event(e) for e in G.events(st)]
-            run = BoboRun("r", "ph1", pat, 1, BoboHistory({PL.gname(pdesc["blocks"][0]["group"]): [evs[0]]}))
+        for st in ([1, 2, 3, 4], [4, 4, 4, 4, 4], [1, 3, 2, 4, 5], [2, 2, 3, 3, 4, 4], [1, 5, 5, 5], [1, 4, 4, 5, 6],
+                   [1, 6, 6, 3, 5], [1, 9, 9, 2, 9, 4]):
             n_runs += 1
-            for e in evs[1:]:
-                try:
-                    run.process(e)
-                except Exception as ex:   # noqa
-                    res.failures.append(dict(signature="internal-error-in-process", what="%s escaped BoboRun.process" % type(ex).__name__,
-                                             case=dict(shape=shape, stream=st)))
-                    break
-            res.note_case(("run", tuple(shape), tuple(st)), True)
+            exn = feed_shape(shape, scheme, st)
+            if exn:
+                res.failures.append(dict(signature="internal-error-in-process", what="%s escaped BoboRun.process" % exn,
+                                         case=dict(shape=shape, scheme=scheme, stream=st)))
+            res.note_case(("run", tuple(shape), scheme, tuple(st)), True)
     res.extra["runs_fed"] = n_runs
 
     # typed predicates
@@ -381,9 +399,18 @@ def replay(obj):
     sig = obj.get("signature", "")
     print(obj.get("what"))
     if "seq" in case:
-        out = real_build(case["name"], case["single"], [tuple(x) for x in case["seq"]])
+        seq = [(m, kw) for m, kw in case["seq"]]
+        out = real_build(case["name"], case["single"], seq)
         print("builder now gives:", out)
-        return 1
+        if out[0] != 0:
+            return 0 if sig == "builder-flags" else 1
+        got = [out[2 + 7 * i: 9 + 7 * i] for i in range(out[1])]
+        print("documented       :", documented_blocks(seq))
+        return 0 if got == documented_blocks(seq) else 1
+    if "shape" in case:
+        exn = feed_shape(case["shape"], case.get("scheme", 1), case["stream"])
+        print("now: %s escaped BoboRun.process" % exn if exn else "now: no exception escapes BoboRun.process")
+        return 1 if exn else 0
     if sig == "typed-predicate":
         for t in typed_cases():
             if all(t[k] == case[k] for k in ("dtype", "subtype", "cast", "value")):
